@@ -33,7 +33,10 @@ def run(prop, tier, seed, replay=None):
         cases = G.corpus_cases()
         for i in range(n):
             big = (tier != 'quick' and i % 50 == 0)
-            cases.append(G.gen_case(rng, 400 if big else max_ops, 40 if big else max_live, malformed=(i % 7 == 3)))
+            if i % 3 == 1:
+                cases.append(G.gen_dense_case(rng, 40 if big else max_live))
+            else:
+                cases.append(G.gen_case(rng, 400 if big else max_ops, 40 if big else max_live, malformed=(i % 7 == 3)))
     work = os.path.join(C.CACHE, 'run', '%s-%s-%d' % (prop, tier, os.getpid()))
     os.makedirs(work, exist_ok=True)
     violations = []   # (message, case)
